@@ -1,7 +1,7 @@
 """C14 bounded stand-ins (native): the meson-format placeholder scanner against an independent single-pass reference
 (escape rule as pinned by the repository's own fixture config6.h.in), #mesondefine / #cmakedefine rendering, simple
 cmake-format placeholders, and the generated header.  Labelled bounded; never counted as proved."""
-import io, itertools, random
+import itertools, io, itertools, random
 from bounded.util import strings, chunked, pmap
 
 NAME = set('abcdefghijklmnopqrstuvwxyzABCDEFGHIJKLMNOPQRSTUVWXYZ0123456789_-')
@@ -89,6 +89,89 @@ def _meson_chunk(chunk):
     return len(chunk) * len(CONFS), nt, fails
 
 
+VALID = set('abcdefghijklmnopqrstuvwxyzABCDEFGHIJKLMNOPQRSTUVWXYZ0123456789_/.+-')
+
+
+class Malformed(Exception):
+    pass
+
+
+def ref_cmake(line, at_only, conf, missing):
+    """reference for the cmake / cmake@ formats, written from the documentation: @NAME@ (and ${NAME} unless at-only) is replaced
+    by the value of NAME when NAME consists of [a-zA-Z0-9_/.+-]; other text between two @ is left alone; an invalid character
+    inside ${...} or a missing } is an error; an undefined name is replaced by nothing and reported.  (Values used here contain
+    no @ $ { }, so whether inserted text is scanned again does not matter.)"""
+    out, i = '', 0
+
+    def value(name):
+        if name in conf:
+            v = conf[name]
+            return str(int(v)) if isinstance(v, bool) else str(v)
+        missing.add(name)
+        return ''
+    while i < len(line):
+        c = line[i]
+        if c == '@':
+            j = line.find('@', i + 1)
+            if j > i + 1 and all(ch in VALID for ch in line[i + 1:j]):
+                out += value(line[i + 1:j])
+                i = j + 1
+                continue
+        elif not at_only and line[i:i + 2] == '${':
+            depth, j = 1, i + 2
+            while depth > 0:
+                if j >= len(line):
+                    raise Malformed('incomplete')
+                if line[j:j + 2] == '${':
+                    depth += 1
+                    j += 2
+                elif line[j] == '}':
+                    depth -= 1
+                    j += 1
+                elif line[j] in '@\n' or line[j] in VALID:
+                    j += 1
+                else:
+                    raise Malformed('invalid character')
+            name = ref_cmake(line[i + 2:j - 1], at_only, conf, missing)
+            if any(ch not in VALID for ch in name):
+                raise Malformed('invalid character')
+            out += value(name)
+            i = j
+            continue
+        out += c
+        i += 1
+    return out
+
+
+CCONFS = [{}, {'A': 'v', 'b': 'w w', 'Ab': 7, 'v': 'deep', 'T': True}]
+
+
+def _cmake_chunk(chunk):
+    from mesonbuild.utils.universal import do_conf_str
+    from mesonbuild.utils.core import MesonException
+    fails, nt = [], 0
+    for t in chunk:
+        for ci, conf in enumerate(CCONFS):
+            for fmt in ('cmake', 'cmake@'):
+                miss = set()
+                try:
+                    exp = ref_cmake(t, fmt == 'cmake@', conf, miss)
+                except Malformed:
+                    exp = 'error'
+                try:
+                    res, gm, _ = do_conf_str('src', [t], CD(conf), fmt)
+                    got = res[0]
+                except MesonException:
+                    got, gm = 'error', set()
+                except Exception as ex:
+                    fails.append({'case': {'template': t, 'conf': ci, 'format': fmt}, 'stage': 'cmake', 'detail': f'{type(ex).__name__}: {ex}'})
+                    continue
+                nt += ('@' in t or '${' in t)
+                if got != exp or (exp != 'error' and gm != miss):
+                    fails.append({'case': {'template': t, 'conf': ci, 'format': fmt}, 'stage': 'cmake', 'detail': f'output {got!r} missing {sorted(gm)!r}; reference {exp!r} missing {sorted(miss)!r}'})
+    return len(chunk) * len(CCONFS) * 2, nt, fails
+
+
 def spec_define(line, conf):
     """#mesondefine VAR: unset -> undef comment; bool -> #define / #undef; int -> #define V n; str -> #define V s, the value copied verbatim"""
     arr = line.split()
@@ -174,6 +257,12 @@ def run(REG, tier, seed, jobs):
     ev, nt, fails = pmap(_header_chunk, chunked(iter(sets), 200), jobs)
     parts.append({'name': 'C14/bounded/generated-header-sorted-keys-once', 'function': '_dump_c_header', 'bound': f'{len(sets)} configuration data sets (insertion orders, value types) x 3 output formats',
                   'evaluations': ev, 'distinct_nontrivial': nt, 'rule': 'every case is distinct', 'exhaustive': tier != 'quick', 'failures': fails})
+    calpha = ['@', 'A', 'b', ',', ' ', '${', '}', '-', 'T', '\\', 'v']
+    cn = 4 if tier == 'quick' else 5
+    ctempl = (''.join(t) for k in range(cn + 1) for t in itertools.product(calpha, repeat=k))
+    ev, nt, fails = pmap(_cmake_chunk, chunked(ctempl, 3000), jobs)
+    parts.append({'name': 'C14/bounded/cmake-formats-vs-reference', 'function': 'do_replacement_cmake / do_conf_str_cmake', 'bound': f'all templates of <= {cn} symbols over {calpha!r} x {len(CCONFS)} configurations x the cmake and cmake@ formats',
+                  'evaluations': ev, 'distinct_nontrivial': nt, 'rule': 'non-trivial: the template contains @ or ${', 'exhaustive': True, 'failures': fails})
     return {'parts': parts}
 
 
